@@ -35,7 +35,7 @@ func init() {
 		ID:    prop,
 		Level: "exploration",
 		Rule: "a chart is a file set: baseline (Chart.yaml v2, values.yaml, one template) plus every conflict-free subset of <=2 (quick) / <=3 (thorough; a two-rule .helmignore counts as two there) deviations from a table of " +
-			fmt.Sprint(len(devTable)) + " (apiVersion v1 +requirements.yaml/.lock, all optional metadata, declared dependencies, Chart.lock, schema, 5 file-name shapes, 5 contents x {file,template,values} + 3 x Chart.yaml, " +
+			fmt.Sprint(len(devTable)) + " (apiVersion v1 +requirements.yaml/.lock, all optional metadata, declared dependencies, Chart.lock, schema, 5 file-name shapes, 6 contents (incl. BOM + invalid UTF-8) x {file,template,values} + 3 x Chart.yaml, " +
 			"4 dependency layouts, " + fmt.Sprint(ruleSetCount()) + " .helmignore rule sets with " + fmt.Sprint(len(probeNames)) + " probe files - in cases of three deviations only the probes designed for the set's own rules plus 4 innocents); each runs LoadFiles->Save->LoadFile, LoadFiles->SaveDir->LoadDir (not for a .helmignore set combined with other deviations), dir->LoadDir vs dir->Package->LoadFile, dir->LoadDir vs own-tar->LoadArchive; " +
 			"plus invalid name/version x <=1 deviation (one .helmignore set only) x {Save, Package, Package --version}; plus write-phase faults (invalid chart name - plainly invalid or collapsing to one after sanitizing - 1 or 2 levels down the dependency tree, values.schema.json that is not JSON at depth 0..2) x <=1 deviation x {Save, Package}: error => no file in the destination; plus histories on ONE action.Package value: every sequence (with repetition) of 1..2 (quick) / 1..3 (thorough) charts out of 4 (different names/versions/appVersions, one name twice) x {no override, --version, --app-version, both}: every archive is named and filled from its own directory (+ override). distinct = (resulting file set) / (invalid tuple) / (fault tuple) / (history, override); every case is non-trivial: it reaches the tar writer or a validation error",
 		Run:    run,
@@ -163,6 +163,10 @@ func classify(route string, rules []string, ds []diff, res *caseResult) {
 		is := issue{Route: route, Kind: d.Kind, Detail: d.Detail, What: d.String()}
 		content := d.Kind == "template" || d.Kind == "file" || d.Kind == "values-raw" || d.Kind == "schema"
 		switch {
+		case content && route == "dir-vs-archive" && (isBOM(d) || isBOM(diff{Detail: d.Detail, A: d.B, B: d.A})):
+			// both loaders strip a leading BOM (the known behaviour); here only one of them did
+			is.Class = "bom-stripped-by-one-loader-only"
+			is.What = fmt.Sprintf("%s %s: the archive loader gives %s, the directory loader gives %s - a leading UTF-8 BOM is stripped by one of the two loaders only", d.Kind, d.Path, excerpt(d.A), excerpt(d.B))
 		case content && isBOM(d):
 			is.Class = "leading-bom-stripped"
 			is.What = fmt.Sprintf("%s %s starts with a UTF-8 BOM (%s); after the round trip the first BOM is gone (%s)", d.Kind, d.Path, excerpt(d.A), excerpt(d.B))
